@@ -74,6 +74,8 @@ def value_cases(ctx):
         c = L.build_case(rng, n, shapes, **kw)
         if backends:
             c["backends"] = backends
+        if n >= 12:
+            c["model_big"] = rng.random() < 0.3
         if L.growth(c) < 2 ** 50:
             cases.append((fam, c))
 
@@ -174,7 +176,9 @@ def model_affordable(name, case):
     n, depth = case["n"], len(case["layers"])
     if name == "standard":
         return n <= 7 or (depth <= 1 and n <= 10)
-    return n <= 13
+    if n >= 12:                                   # 4^n scalar operations per layer in the model: a sample only
+        return depth <= 1 and case.get("model_big", False)
+    return n <= 11
 
 
 # ------------------------------------------------------------------------------------------------ plan generation
@@ -270,7 +274,8 @@ def main(ctx):
     cov = ctx.coverage
     fails = {}            # class key -> (rank, sig, replay, what)
     unexplained = []      # correspondence mismatches without oracle failure
-    hist = {"regime": {}, "ones_split": {}, "errors_impl": {}, "family": {}, "n_values": {}, "n_plans": {}, "placeholder": {}}
+    hist = {"regime_plans": {}, "regime_values": {}, "ones_split_plans": {}, "ones_split_values": {}, "ones_split_large_n_values": {},
+            "errors_impl": {}, "family": {}, "n_values": {}, "n_plans": {}, "placeholder": {}}
 
     def bump(h, k, d=1):
         hist[h][k] = hist[h].get(k, 0) + d
@@ -315,13 +320,14 @@ def main(ctx):
         ctx.count()
         bump("n_plans", str(n)); bump("family", fam.split("-")[0] + "-plan")
         if b == "ones":
-            run_histogram(codes, hist["ones_split"])
-            bump("regime", "ones:" + ("low(n<=6)" if n <= 6 else "high"))
+            if n > 6:
+                run_histogram(codes, hist["ones_split_plans"])
+            bump("regime_plans", "ones:" + ("low(n<=6)" if n <= 6 else "high"))
         else:
             reg = "low(n<4)" if n < 4 else ("high" if n >= 2 * op else "medium")
-            bump("regime", "efficient:" + reg)
+            bump("regime_plans", "efficient:" + reg)
             if reg == "high" and n % op and n % op < mn:
-                bump("regime", "efficient:high:last-chunk-merged")
+                bump("regime_plans", "efficient:high:last-chunk-merged")
         if "err" in im:
             bump("errors_impl", f"plan:{b}:{im['err']}")
         dom = in_domain(b, n, mn, op, [codes], 2 ** n)
@@ -393,6 +399,17 @@ def main(ctx):
             if "err" in im:
                 bump("errors_impl", f"value:{b}:{im['err']}")
             dom = wf_input and in_domain(b, n, case["min"], case["opt"], codes, len(case["psi"]))
+            if dom and b == "ones":
+                bump("regime_values", "ones:" + ("low(n<=6)" if n <= 6 else "high"))
+                if n > 6:
+                    for c in codes:
+                        run_histogram(c, hist["ones_split_values"])
+            elif dom and b == "efficient":
+                op_, mn_ = case["opt"], case["min"]
+                reg = "low(n<4)" if n < 4 else ("high" if n >= 2 * op_ else "medium")
+                bump("regime_values", "efficient:" + reg)
+                if reg == "high" and n % op_ and n % op_ < mn_:
+                    bump("regime_values", "efficient:high:last-chunk-merged")
             bad = None
             if dom:
                 n_oracle += 1
@@ -477,11 +494,14 @@ def main(ctx):
                 continue
             ctx.count()
             side["near_identity"] += 1
-            if np.max(np.abs(got - want)) > 1e-10 * max(1.0, float(np.max(np.abs(want)))):
-                fail({"backend": CLASS[b], "kind": "near-identity-skipped"}, n,
-                     {"mode": "float", "backend": b, "n": n, "layer": case["layers"][0], "eps": 1e-6,
-                      "max_abs_err": float(np.max(np.abs(got - want)))},
-                     f"{CLASS[b]}: a layer entry 1 + 1e-6*E is treated as the identity (error {np.max(np.abs(got - want)):.2e})")
+            err = float(np.max(np.abs(got - want)))
+            if err > 1e-10 * max(1.0, float(np.max(np.abs(want)))):
+                fail({"backend": CLASS[b], "kind": "float-near-identity-mismatch"}, n,
+                     {"mode": "float", "backend": b, "n": n, "layer": case["layers"][0],
+                      "mats": [[[float(z.real), float(z.imag)] for z in np.asarray(M, dtype=complex).reshape(-1)] for M in case["mats"]],
+                      "psi": L.flat_ints(case["psi"]), "max_abs_err": err},
+                     f"{CLASS[b]}(n={n}) on float data with near-identity entries 1 + 1e-6*E: result differs from the oracle by "
+                     f"{err:.2e} (tolerance 1e-10; an entry wrongly treated as the identity gives ~1e-6)")
     # the index-based backend on the same matrices item by item
     blocked = []
     bsub = [c for f, c in vcs if c["n"] <= (10 if ctx.thorough else 8) and c["layers"]]
@@ -517,7 +537,7 @@ def main(ctx):
             n = case["n"]
             codes = [L.codes_of(case, 0)]
             want = L.canon_vec(L.oracle_factor(case))["ok"]
-            run_histogram(codes[0], hist["ones_split"])
+            run_histogram(codes[0], hist["ones_split_large_n_values"])
             for b in ("efficient", "ones"):
                 if not in_domain(b, n, case["min"], case["opt"], codes, 2 ** n):
                     continue
@@ -629,5 +649,19 @@ def replay(ctx, path):
         bad = cs is None or sum(cs, []) != list(range(rp["len"])) or any(len(c) < rp["min"] for c in cs)
         print("_chunk_list ->", r, "VIOLATES partition" if bad else "holds"); return 1 if bad else 0
     if mode == "float":
-        print("float replay (near-identity) is regenerated from the seed; re-run the check:", json.dumps(rp)[:300]); return 1
+        mats = []
+        for f in rp["mats"]:
+            d = int(round(len(f) ** 0.5))
+            M = np.array([complex(a, b) for a, b in f]).reshape(d, d)
+            mats.append(L.ID2 if np.array_equal(M, L.ID2) else M)
+        f = rp["psi"]
+        psi = np.array([complex(f[2 * i], f[2 * i + 1]) for i in range(len(f) // 2)])
+        case = {"n": rp["n"], "min": 3, "opt": 4, "mats": mats, "layers": [rp["layer"]], "psi": psi}
+        want = L.oracle_factor(case)
+        got = np.asarray(L.make_backend(rp["backend"], rp["n"], 3, 4).statevector(L.py_layers(case), psi.copy())).astype(complex)
+        err = float(np.max(np.abs(got - want)))
+        bad = err > 1e-10 * max(1.0, float(np.max(np.abs(want))))
+        print(f"{CLASS[rp['backend']]}(n={rp['n']}) layer {rp['layer']} (entry = index into mats; near-identity = last matrix): "
+              f"max |result - oracle| = {err:.3e} ->", "VIOLATES (tolerance 1e-10)" if bad else "holds")
+        return 1 if bad else 0
     print("replay names a broken obligation, no input to re-run:", json.dumps(rp)[:400]); return 1
